@@ -780,13 +780,26 @@ class MementoFunctionHashRule(HashRule):
             )
 
     def compute_hash(self) -> Optional[str]:
-        explicit_version = self.memento_fn.explicit_version
-        if explicit_version is not None:
-            # A digest of fixed length, like every other rule hash: the rule hashes are
-            # concatenated to form the version of the dependent function, and the free-text
-            # versions of two dependencies could be split another way ("1", "12" / "11", "2")
-            return hashlib.sha256(explicit_version.encode("utf-8")).hexdigest()[0:16]
-        return self.memento_fn.code_hash
+        def hash_of(memento_fn: MementoFunctionType) -> str:
+            explicit_version = memento_fn.explicit_version
+            if explicit_version is not None:
+                # A digest of fixed length, like every other rule hash: the rule hashes are
+                # concatenated to form the version of the dependent function, and the
+                # free-text versions of two dependencies could be split another way
+                # ("1", "12" / "11", "2")
+                return hashlib.sha256(explicit_version.encode("utf-8")).hexdigest()[0:16]
+            return memento_fn.code_hash
+
+        rules = [self] + [
+            r for r in self.alternates if r.memento_fn is not self.memento_fn
+        ]
+        if len(rules) == 1:
+            return hash_of(self.memento_fn)
+        # Several memento function objects share this rule's qualified name (the function and
+        # a modifier clone of it kept under another name): all of them count, each with the
+        # symbol it is reached by, in an order that does not depend on which was met first
+        parts = sorted({r.symbol + "=" + hash_of(r.memento_fn) for r in rules})
+        return hashlib.sha256(";".join(parts).encode("utf-8")).hexdigest()[0:16]
 
     def did_change(self) -> bool:
         # Changes to the definition of a MementoFunctionType are more robust and detected using a
